@@ -31,6 +31,10 @@ type labelRec struct {
 	// refused whatever the repetitions; when only repetitions differ, nothing
 	// is asserted about the decision.
 	Dup int `json:"dup,omitempty"`
+	// EmptyLabel adds the empty string as a label (a one-element set, not the empty set).
+	EmptyLabel bool `json:"emptyLabel,omitempty"`
+	// Big is the size of the stub's stanza body (large headers before a refusal).
+	Big int `json:"big,omitempty"`
 }
 
 type c11Case struct {
@@ -38,7 +42,7 @@ type c11Case struct {
 	Perm []int      `json:"perm"` // permutation of the recipients for the metamorphic re-run
 }
 
-var c11Universe = []string{"postquantum", "a", "b", "zz"}
+var c11Universe = []string{"postquantum", "a", "b", "a,b"}
 
 func c11Labels(r labelRec) []string {
 	var ls []string
@@ -56,6 +60,9 @@ func c11Labels(r labelRec) []string {
 				ls[i], ls[j] = ls[j], ls[i]
 			}
 		}
+	}
+	if r.EmptyLabel {
+		ls = append(ls, "")
 	}
 	if r.Dup > 0 && len(ls) > 0 {
 		// replace or add a repeated label
@@ -85,11 +92,15 @@ func c11Spec(i int, r labelRec) hx.RecSpec {
 	case "scrypt":
 		return hx.RecSpec{Kind: "scrypt", Pass: "pw", WF: 1}
 	}
-	st := &hx.StubSpec{Stanzas: []refage.Stanza{{Type: fmt.Sprintf("stub%d", i), Args: []string{"arg"}, Body: []byte{byte(i)}}}, Fail: r.Fail}
+	body := []byte{byte(i)}
+	if r.Big > 0 {
+		body = hx.PRG(uint64(i), r.Big)
+	}
+	st := &hx.StubSpec{Stanzas: []refage.Stanza{{Type: fmt.Sprintf("stub%d", i), Args: []string{"arg"}, Body: body}}, Fail: r.Fail}
 	if r.Set >= 0 {
 		st.HasLabels = true
 		st.Labels = c11Labels(r)
-		st.NilLabels = r.Nil && r.Set == 0
+		st.NilLabels = r.Nil && r.Set == 0 && !r.EmptyLabel
 		if st.Labels == nil {
 			st.Labels = []string{}
 		}
@@ -107,12 +118,12 @@ func c11Expect(recs []labelRec) bool {
 		switch {
 		case r.Real == "scrypt":
 			key = "random-label" + fmt.Sprint(i) // never equal to anything else
-		case r.Real == "x25519" || r.Set <= 0:
+		case r.Real == "x25519" || (r.Set <= 0 && !(r.EmptyLabel && r.Set == 0)):
 			key = "set:"
 		default:
-			ls := c11Labels(labelRec{Set: r.Set})
+			ls := c11Labels(labelRec{Set: r.Set, EmptyLabel: r.EmptyLabel})
 			sort.Strings(ls)
-			key = "set:" + strings.Join(ls, ",")
+			key = "set:" + strings.Join(ls, "\x00") + fmt.Sprintf("#%d", len(ls))
 		}
 		if i == 0 {
 			first = key
@@ -306,6 +317,30 @@ func TestC11(t *testing.T) {
 		s.St.Exhaust("all lists of 1..3 recipients over {absent} + the 16 subsets of a 4-label universe (label order and nil/empty varied deterministically)", int64(n))
 	}, check)
 
+	// a refusal after more than 4 KiB / 16 KiB of header material has been produced
+	pbt.Each(s, "labels-exhaustive", func(yield func(c11Case)) {
+		n := 0
+		for _, count := range []int{3, 45, 200} {
+			for _, big := range []int{0, 3000} {
+				for _, offender := range []labelRec{{Set: 1}, {Set: -1, Fail: true}, {Real: "scrypt"}} {
+					for _, pos := range []int{count - 1, count / 2} {
+						var recs []labelRec
+						for i := 0; i < count; i++ {
+							r := labelRec{Set: -1, Big: big}
+							if big == 0 {
+								r.Real = "x25519"
+							}
+							recs = append(recs, r)
+						}
+						recs[pos] = offender
+						yield(c11Case{Recs: recs})
+						n++
+					}
+				}
+			}
+		}
+		s.St.Exhaust("an offending recipient (other labels / failing wrap / scrypt) at the end or middle of 3, 45 and 200 recipients, small and 3000-byte stanzas", int64(n))
+	}, check)
 	pbt.Rapid(s, "labels", s.N(20000, 150000), func(t *rapid.T) c11Case {
 		n := rapid.IntRange(1, 6).Draw(t, "n")
 		// mostly-equal lists with one odd recipient at a drawn position, or free lists
@@ -334,6 +369,17 @@ func TestC11(t *testing.T) {
 		default:
 			for i := range recs {
 				recs[i].Set = rapid.IntRange(-1, 15).Draw(t, "freeSet")
+			}
+		}
+		if rapid.IntRange(0, 5).Draw(t, "withEmptyLabel") == 0 {
+			k := rapid.IntRange(0, n-1).Draw(t, "elPos")
+			if recs[k].Set >= 0 {
+				recs[k].EmptyLabel = true
+			}
+		}
+		if rapid.IntRange(0, 6).Draw(t, "bigHeader") == 0 {
+			for i := range recs {
+				recs[i].Big = rapid.SampledFrom([]int{1500, 3000, 5000}).Draw(t, "big")
 			}
 		}
 		if rapid.IntRange(0, 4).Draw(t, "withDup") == 0 {
